@@ -84,6 +84,11 @@ def solver_level(ctx):
     nat, nat_traces = oc.split_aborted(ctx, nat, results)
     if not any(e["ev"] == "field" and e["a"] == 1 for t in nat_traces for e in t["ev"]):
         raise core.MachineryFailure("C10: no natural run has a step whose change is below the closeness tolerance")
+    later = sum(t["info"]["later_iterations_with_new_induced"] for t in nat_traces)
+    ctx.cov["euler_steps_in_later_screening_iterations_after_a_changed_induced_potential"] = later
+    if later < 20:
+        raise core.MachineryFailure(f"C10: only {later} Euler steps run in a 2nd or later screening iteration after the induced "
+                                    "potential changed: 'what the step does with refreshed operators' is not exercised")
     full, res = oc.identify_mechanism(ctx, nat_traces, "MTrigger", ["exact", "prev_close"], oc.REPAIRED, "C10 natural runs")
     if len(full) == 2:
         raise core.MachineryFailure("C10: the natural runs do not discriminate the refresh triggers")
@@ -104,6 +109,10 @@ def solver_level(ctx):
               lambda: ctx.model_check("OpsCache", oc.cfg_text(small, oc.PINNED, ["OperatorsMatchLatestA"], "SpecStep", view="ViewStep"),
                                       name="OpsCache/SpecStep[compare-with-previous-step trigger must violate OperatorsMatchLatestA]",
                                       expect_violation="OperatorsMatchLatestA", count=False),
+              lambda: ctx.model_check("OpsCache", oc.cfg_text(dict(small, Scrs=[True], Dyns=[False]), dict(oc.REPAIRED, MMemoLpsi=True),
+                                                              ["EulerUsesLatestOperators"], "SpecStep", view="ViewStep"),
+                                      name="OpsCache/SpecStep[L psi memoised per solve step must violate EulerUsesLatestOperators]",
+                                      expect_violation="EulerUsesLatestOperators", count=False),
               judge]       # every recorded run, every state: the clause itself
     if trig != "exact":
         thunks.append(lambda: ctx.model_check("OpsCache", oc.cfg_text(small, oc.REPAIRED, oc.INV_C10_STEP, "SpecStep", view="ViewStep"),
@@ -119,10 +128,12 @@ def solver_level(ctx):
                           f"C10: real solver run '{a['label']}' ({info['sites']} sites, {info['steps']} steps, refresh trigger "
                           f"'{trig}'): {clause} is false in {len(bad[n])} states, first at event {pos} (step "
                           f"{info['first_stale_step']}); the Euler steps ran with operators built for an older potential: "
-                          f"max relative staleness of link_exponents {info['max_relative_staleness']:.3g}",
+                          f"max relative staleness of link_exponents {info['max_relative_staleness']:.3g}; max difference between the psi "
+                          f"the step returned and the step recomputed with freshly built operators {info['max_step_mismatch']:.3g}",
                           {"input": a, "info": info, "false_clauses": bad[n][:20], "trace": tr, "mechanism": mech})
         elif n not in acc:
-            oc.report_rejected(ctx, "C10:natural", a["label"], tr, mech, oc.INV_C10_STEP, {"input": a, "info": info})
+            oc.report_rejected(ctx, "C10:natural", f"{a['label']} (max |psi returned - psi recomputed with fresh operators| = "
+                               f"{info['max_step_mismatch']:.3g})", tr, mech, oc.INV_C10_STEP, {"input": a, "info": info})
     good = [n for n in sorted(acc) if n not in bad]
     for n in good[:3]:
         ctx.sample({"level": "step", "input": nat[n], "events": [e["ev"] for e in nat_traces[n]["ev"]][:24],
